@@ -1244,6 +1244,12 @@ def mk_sub(base, idx):
                     and ge0(sl.args[0]) and ge0(s2.args[1]):
                 # (X[a:])[:n] == X[a:a+n]   for a >= 0, n >= 0
                 return mk_sub(at.args[0], mk_slice(sl.args[0], sl.args[0] + s2.args[1], NONE))
+            if sl is not None and sl.kind == 'slice' and _isnone(sl.args[1]) and _isnone(sl.args[2]) and s2 is not None \
+                    and s2.kind == 'slice' and _isnone(s2.args[2]) and ge0(sl.args[0]) and not _isnone(s2.args[0]) and ge0(s2.args[0]):
+                # (X[a:])[b:n] == X[a+b : a+n]   for a, b >= 0 (n >= 0 or open)
+                hi_ = NONE if _isnone(s2.args[1]) else (sl.args[0] + s2.args[1] if ge0(s2.args[1]) else None)
+                if hi_ is not None:
+                    return mk_sub(at.args[0], mk_slice(sl.args[0] + s2.args[0], hi_, NONE))
             if sl is not None and sl.kind == 'slice' and _isnone(sl.args[2]):
                 # (X[a:b])[i] == X[a + i]   for constants 0 <= a, 0 <= i < b - a
                 a0, b0, i0 = sl.args[0].const(), (None if _isnone(sl.args[1]) else sl.args[1].const()), idx.const()
